@@ -127,6 +127,15 @@ func newTokenizerUsed(kind string, warm string) tokenizers.ITokenizer {
 		t.SetCharacterState(0x0370, 0x03ff, t.WordState())
 		use(t)
 		return t
+	case "expression+arrow":
+		// user symbols that begin with the sign character of the expression language
+		t := ctok.NewExpressionTokenizer()
+		use(t)
+		for _, sym := range []string{"->", "-=", "--", "+=", "=>"} {
+			t.SymbolState().Add(sym, tokenizers.Symbol)
+			use(t)
+		}
+		return t
 	case "csv+cfg":
 		t := csv.NewCsvTokenizer()
 		use(t)
